@@ -1,4 +1,4 @@
-(* C10: the full (unguarded) statements are false for the faithful models -- the three genuine
+(* C10: the full (unguarded) statements are false for the faithful models -- the genuine
    defects of the unchanged tree, each with its witness, evaluated in the field Qc of canonical
    rationals.  The guarded statements that do hold are in C10_thm.v / C10_expand.v. *)
 Require Import QArith Qcanon.
@@ -40,15 +40,17 @@ Proof.
   intro H. apply (f_equal this) in H. vm_compute in H. discriminate H.
 Qed.
 
-(* 2. IndexReplacer.zero raises when every free index of a Zero is replaced by a fixed index *)
+(* 2. (fixed in /repo by commit 826ad17; the model follows the repaired code)  A Zero all of whose
+      free indices are replaced by fixed indices becomes an index-free Zero: regression example *)
 Definition zf_f := Term 0 0 [2].
 Definition zf_in : expr :=
   Indexed (ComponentTensor
              (Indexed (ListTensor [Zero [] [(0, 2)]; Indexed zf_f [Free 0]]) [Free 1])
              [(0, 2); (1, 2)]) [Fixed 1; Fixed 0].
-Theorem C10_remove_zero_refuted :
-  exists e, rk e 0 = true /\ hygienic e = true /\ rct_safe e = true /\ rct e = None.
-Proof. exists zf_in. repeat split; vm_compute; reflexivity. Qed.
+Example C10_remove_zero_fixed :
+  rk zf_in 0 = true /\ hygienic zf_in = true /\ rct_safe zf_in = true /\
+  rct zf_in = Some (Indexed (ListTensor [Zero [] []; Indexed zf_f [Fixed 1]]) [Fixed 0]).
+Proof. repeat split; vm_compute; reflexivity. Qed.
 
 (* 3. expand_indices re-uses the label-keyed variable cache across component contexts:
       v = variable(f);  v[0] + 2*v[1]  ->  3*f[0] *)
@@ -67,5 +69,4 @@ Proof.
 Qed.
 
 Print Assumptions C10_remove_refuted.
-Print Assumptions C10_remove_zero_refuted.
 Print Assumptions C10_expand_refuted.
